@@ -39,8 +39,10 @@ class Ctx:
     def generated_modules(self):
         from .emit_lean import LeanEmitter
         from .ground import lemmas_lean
+        from . import primcheck
+        src, self.prim_index = primcheck.generate()
         return {"HV.Sorts": LeanEmitter().emit_sorts(), "HV.Spec": LeanEmitter().emit_all(), "HV.Consts": self.consts.consts_lean(),
-                "HV.RunLemmas": lemmas_lean(list(self.lemmas.values()))}
+                "HV.RunLemmas": lemmas_lean(list(self.lemmas.values())), "HV.PrimCheck": src}
 
 
 def _verify_one(args):
@@ -80,7 +82,7 @@ def run_setup():
     from .leanbuild import LeanBuild
     from .plans import PLANS
     lb = LeanBuild(ctx.generated_modules())
-    mods = sorted({m for p in PLANS.values() for m in p.lean} | {"HV.RunLemmas"})
+    mods = sorted({m for p in PLANS.values() for m in p.lean} | {"HV.RunLemmas", "HV.PrimCheck"})
     res = lb.build(mods, jobs=12)
     bad = [m for m, r in res.items() if not r.ok]
     for m, r in res.items():
@@ -115,7 +117,7 @@ def run_check(prop, tier, seed):
     def lean_job():
         t = time.time()
         try:
-            lean_out["res"] = lb.build(sorted(set(plan.lean) | {"HV.RunLemmas"}), jobs=8)
+            lean_out["res"] = lb.build(sorted(set(plan.lean) | {"HV.RunLemmas", "HV.PrimCheck"}), jobs=8)
         except Exception as ex:
             lean_out["err"] = f"{type(ex).__name__}: {ex}"
         timings["lean_s"] = time.time() - t
@@ -168,6 +170,14 @@ def run_check(prop, tier, seed):
         return 3
     lres = lean_out["res"]
     audit = {}
+    # A6 for the hand-written Lean definitions of primitives: evaluated by Lean on samples, compared with CPython
+    from . import primcheck
+    pc = lres.get("HV.PrimCheck")
+    if pc is not None and pc.ok:
+        verdicts.extend(primcheck.verdicts(pc.output, ctx.prim_index))
+    else:
+        verdicts.append(Verdict("G:A6:primitives:lean-agrees", "unknown", "lean-eval", 0.0, where="HV.PrimCheck", kind="G",
+                                note="the generated cross-check module did not compile: " + ("; ".join(m[:200] for _, m in pc.errors[:2]) if pc is not None else "not built")))
     for mod, thms in plan.lean.items():
         r = lres[mod]
         text = lb.texts[mod]
@@ -310,6 +320,7 @@ def decide_and_report(prop, plan, ctx, verdicts, xchk, oracle, canary, audit, st
                 return k
         return None
 
+    oracle_reran = {}
     for v in failures:
         k = is_known(v.name)
         if k:
@@ -374,17 +385,35 @@ def decide_and_report(prop, plan, ctx, verdicts, xchk, oracle, canary, audit, st
                     c = ctx.db.get(q)
                     if (c.harness is None or c.diff is not None) and c.verify:
                         dom = []
+                        fn_short = q.replace("htmltools._core.", "").replace("htmltools._util.", "")
                         for pat, ex_ in (plan.relevance or {}).items():
-                            if pat in v.name and isinstance(ex_, tuple) and ex_[0] == "within":
+                            # the whole function left the subset (obligation `...:subset`): the domain restriction of any of its obligations applies
+                            if (pat in v.name or (v.name.endswith(":subset") and pat.split(":")[0] == fn_short and ":path" in pat)) and isinstance(ex_, tuple) and ex_[0] == "within":
                                 dom = [ex_[1]]
-                        n, mm = RP.differential(ctx.src, c, n=500, seed=ctx.seed + 3, atoms={"allow_ob": True}, extra_requires=dom)
+                        n, mm = RP.differential(ctx.src, c, n=800 if dom else 500, seed=ctx.seed + 3, atoms={"allow_ob": True}, extra_requires=dom)
                         if mm:
                             found = {"function": q, "failing_input": mm[0]["input"], "expected_by_contract": mm[0].get("expected"), "observed_real": mm[0].get("observed")}
+                            if dom:
+                                own = True           # a concrete witness inside the property's own domain
                 except Exception as ex:
                     found = None
-            if found is not None and own:
-                rep = {"obligation": v.name, "kind": v.kind, "where": v.where, "note": v.note + " [decided by the bounded stand-in: real function vs executable contract]",
-                       "contract_replay": found}
+            prop_fail = None
+            if plan.oracle and not oracle_reran.get("done"):
+                # an undecided obligation widens the bounded search once: the property oracle with its thorough sample size
+                oracle_reran["done"] = True
+                try:
+                    o = RP.run_real([{"kind": "oracle", "oracle": plan.oracle, "seed": ctx.seed + 1, "n": 3000}])[0]
+                    if o.get("failures"):
+                        oracle_reran["fail"] = o["failures"][0]
+                except Exception:
+                    pass
+            prop_fail = oracle_reran.get("fail")
+            if (found is not None and own) or prop_fail is not None:
+                rep = {"obligation": v.name, "kind": v.kind, "where": v.where, "note": v.note + " [decided by the bounded stand-in: real function vs executable contract / property oracle]"}
+                if found is not None:
+                    rep["contract_replay"] = found
+                if prop_fail is not None:
+                    rep["property_oracle_failure"] = prop_fail
                 path = RP.write_replay(prop, v.name, rep)
                 violations.append((v, path, ""))
             else:
